@@ -21,7 +21,7 @@ RULE = ("cases drawn by seeded sampling over operator kind {dense, mv, mv_rmv, a
         "solver evaluated >= 2 operator products (counted by the spy operator) or used the dense path with n >= 2")
 MIN_NONTRIVIAL = {"quick": 600, "thorough": 8000}
 ASSUMPTIONS = ["cond(A - e_c M) <= 40 for every column and batch element (generator re-draws E otherwise)",
-               "float32 cases request rtol=1e-4/atol=1e-5 (attainable in working precision)", "broyden1 is not given 1e-11-scaled right-hand sides (float32 underflow in the quasi-Newton update) nor the 1e3-scaled eigenvector column (its absolute f_tol is then 1e-12 relative, where the rank-one updates stall at ~1e-10)",
+               "float32 cases request rtol=1e-4/atol=1e-5 (attainable in working precision), except the group directed_f32_default (cond <= 3, default tolerances, residual bound 4 x the stopping tolerance)", "broyden1 is not given 1e-11-scaled right-hand sides (float32 underflow in the quasi-Newton update) nor the 1e3-scaled eigenvector column (its absolute f_tol is then 1e-12 relative, where the rank-one updates stall at ~1e-10)",
                "must-be-silent classes: direct methods always; cg on Hermitian-flagged SPD systems with real shifts keeping them SPD, "
                "or through the normal equations when cond<=6; bicgstab on SPD and on non-Hermitian systems with cond<=12 and n>=2; "
                "broyden1 when the total number of unknowns <= 40; gmres never (only 'silent => converged')"]
@@ -66,6 +66,20 @@ def cases(seed, tier):
                     out.append({"group": "directed_vecbatch", "seed": sub_seed(seed, "c01d", k), "method": method, "opkind": kind,
                                 "emode": emode, "batch": 0, "BA": [n], "BB": [], "dtype": "float64", "spectrum": "spd", "n": n,
                                 "ncols": n, "tol": "default", "special": None, "kappa": 3.0})
+                    k += 1
+    # directed: float32 with the DEFAULT tolerances (rtol 1e-6, atol 1e-8: attainable for cond <= 3, but below the level 100*eps32 of
+    # "converged to rounding"): a silent return must meet the stopping tolerance itself.  Measured on the repaired tree over 4300 systems: true
+    # residual <= 1.48 x the stopping tolerance for cond <= 3 (up to 3.0 x at cond 6, which is therefore not generated); with the freeze-at-
+    # rounding-level regression the median is 6.4 x.  Bound used: 4 x.
+    k = 0
+    for rep_ in range(3 if tier == "quick" else 30):
+        for method in ("cg", "bicgstab"):
+            for kind in ("dense", "mv", "herm_mv"):
+                for n in (8, 20, 30, 50):
+                    rng = random.Random(sub_seed(seed, "c01f", k))
+                    out.append({"group": "directed_f32_default", "seed": sub_seed(seed, "c01fs", k), "method": method, "opkind": kind, "emode": "none",
+                                "batch": 0, "dtype": "float32", "spectrum": "spd", "n": n, "ncols": rng.choice([1, 3]), "tol": "default_f32",
+                                "special": rng.choice([None, None, "bigcol"]), "kappa": rng.choice([1.5, 3.0])})
                     k += 1
     # directed: columns of very different norm, the large one converging first (per-column stopping tolerances)
     k = 0
@@ -219,6 +233,8 @@ def run_case(desc):
         B = B * 1e-11
     elif desc["special"] == "zerocol":
         B[..., 0] = 0
+    elif desc["special"] == "bigcol":
+        B[..., 0] = B[..., 0] * 100
     elif desc["special"] == "bigeigcol":
         # column 0 is a large multiple of an eigenvector of its own shifted matrix (a Krylov method is done with it after one step),
         # the other columns are small and generic: every column still has to meet ITS OWN tolerance
@@ -247,7 +263,9 @@ def run_case(desc):
     opts = {}
     f32 = dt == torch.float32
     if method in ("cg", "bicgstab", "gmres") or method is None:
-        if f32:
+        if f32 and desc["tol"] == "default_f32":
+            pass           # the library's defaults
+        elif f32:
             opts.update(rtol=1e-4, atol=1e-5)
         elif desc["tol"] == "tight":
             opts.update(rtol=1e-9, atol=1e-11)
@@ -324,6 +342,14 @@ def run_case(desc):
         bound = None
     if not warned:
         obs.count("silent_results_checked")
+        if desc.get("group") == "directed_f32_default" and bound is not None:
+            tight = 4.0 * torch.maximum(rtol * bn, torch.full_like(bn, atol))
+            worstt = float((rn / tight).max())
+            obs.count("f32_default_tolerance_checked")
+            obs.note(f32_ratio=4 * worstt)
+            obs.check(worstt <= 1.0, "residual_f32_default:%s" % eff_method,
+                      "float32, default tolerances, cond %.1f: silent return but the residual is %.2f x the stopping tolerance (max residual %.3e)"
+                      % (kap, 4 * worstt, float(rn.max())), kind=kind, n=n)
         if bound is not None:
             worst = float((rn / bound).max())
             obs.check(worst <= 1.0, "residual:%s:%s%s" % (eff_method, emode, ":normaleq" if normal_eq else ""),
